@@ -332,14 +332,10 @@ def rule_validate_first(ctx, res):
                 # AddWithOverflow(pos, len).1 : advancing by a declared length (second operand not a constant)
                 inner = t[1] if t[0] == 'overflow' else None
                 if inner and inner[0] == 'bin' and term_int(inner[3]) is None:
-                    # `start + offset` with offset = iter.skip(start).position(..): advancing to a byte that was found, not by a declared length
-                    off = strip_transparent(inner[3])
-                    if isinstance(off, tuple) and off[0] == 'field' and isinstance(off[1], tuple) and off[1][0] == 'downcast':
-                        pc = strip_transparent(off[1][1])
-                        if isinstance(pc, tuple) and pc[0] == 'call' and pc[1].split('::')[-1] == 'position':
-                            sk = find_calls(pc[2][0], '::skip')
-                            if sk and strip_transparent(sk[0][2][1]) == strip_transparent(inner[2]):
-                                continue
+                    # `start + offset` with offset = position(..) over the part of the input beginning at `start`:
+                    # advancing to a byte that was found, not by a declared length
+                    if lib.found_offset_sum(inner[2], inner[3]) is not None:
+                        continue
                     nl += 1
                     adv = strip_transparent(inner[3])
                     pos = inner[2]
